@@ -60,6 +60,8 @@ func run(r *vk.Runner) {
 		}
 		r.Family("format:" + fam)
 		var codec *j5codec.Codec
+		var prevOut []byte // bytes returned by the previous call on this codec (must stay intact)
+		var prevCopy, prevCase string
 		for i, mv := range gpb.MsgValues(c.Schema.Root) {
 			c, mv := c, mv
 			if !r.Mine() {
@@ -87,6 +89,13 @@ func run(r *vk.Runner) {
 					t.Class("encode-error")
 					return // C01's business
 				}
+				// history oracle: a later call must not disturb the bytes returned by an earlier one
+				if prevOut != nil && string(prevOut) != prevCopy {
+					t.Violation("earlier-output-mutated|kind="+kind, fmt.Sprintf("the bytes returned for case %s changed after encoding the next message on the same codec\nwas: %s\nnow: %q", prevCase, prevCopy, prevOut), prevCase, prevCopy, string(prevOut))
+					prevOut = nil
+					return
+				}
+				prevOut, prevCopy, prevCase = out, string(out), t.CaseID
 				j, err := gpb.ParseJSON(out)
 				if err != nil {
 					t.Violation("not-well-formed|kind="+kind, fmt.Sprintf("encoder output is not one well-formed JSON document: %v\nschema %s\nmessage: %s\noutput: %q", err, c.ID, txt, out), txt, nil, string(out))
@@ -99,6 +108,57 @@ func run(r *vk.Runner) {
 				}
 				if i%7 == 3 {
 					t.Sample(map[string]string{"schema": c.ID, "message": txt, "json": string(out)})
+				}
+			})
+		}
+	}
+
+	// ---- EncodeAny followed by encoding the parent (two-step history on one codec) ----
+	r.Family("encode-any-then-parent")
+	{
+		c := gpb.SingleFieldCases()[0]
+		_ = c
+		sub := gpb.NewSub()
+		sub.Full = true
+		af := gpb.F("payload", 1, gpb.KJ5Any, gpb.Single)
+		root := &gpb.Message{Name: "T", Fields: []*gpb.Field{af, gpb.F("note", 2, gpb.KString, gpb.Single)}}
+		s := &gpb.Schema{Enums: []*gpb.Enum{gpb.DefaultEnum}, Messages: []*gpb.Message{root, sub}, Root: root}
+		if err := s.Build(); err != nil {
+			panic(err)
+		}
+		codec := j5codec.NewCodec(j5codec.WithResolver(gpb.Resolver{S: s}))
+		for i, smv := range gpb.MsgValues(sub) {
+			smv := smv
+			r.Do(fmt.Sprintf("encode-any#%d", i), func(t *vk.T) {
+				t.Coord("encode-any-then-parent")
+				t.Nontrivial()
+				inner := s.NewMessage(smv)
+				a, err := codec.EncodeAny(inner)
+				t.Step()
+				if err != nil {
+					t.Class("encode-error")
+					return
+				}
+				wantInner := string(a.J5Json)
+				pv := &gpb.MsgVal{M: root, Fields: []*gpb.FieldVal{
+					{F: af, Set: true, One: &gpb.Val{Kind: gpb.KJ5Any, AnyType: a.TypeName, AnyJSON: a.J5Json, AnyProto: a.Proto}},
+					{F: root.Fields[1], Set: true, One: &gpb.Val{Kind: gpb.KString, Str: "a longer string than the payload, to move buffers around"}},
+				}}
+				msg := s.NewMessage(pv)
+				out, err := codec.ProtoToJSON(msg)
+				t.Step()
+				if err != nil {
+					t.Class("encode-error")
+					return
+				}
+				j, err := gpb.ParseJSON(out)
+				if err != nil {
+					t.Violation("not-well-formed|encode-any-then-parent", fmt.Sprintf("parent document is not well-formed JSON: %v\noutput: %q", err, out), nil, nil, string(out))
+					return
+				}
+				pv.Fields[0].One.AnyJSON = []byte(wantInner)
+				if m := gpb.Match(gpb.RefEncode(pv), j, "$"); m != nil {
+					t.Violation("wire-format|encode-any-then-parent|"+m.Clause, fmt.Sprintf("%s\ninner (from EncodeAny): %s\noutput: %s", m.Error(), wantInner, out), nil, wantInner, string(out))
 				}
 			})
 		}
